@@ -254,7 +254,8 @@ def _power(draw, og):
     a = og.array(draw, max_ndim=2)
     if getattr(og, "mode", "") == "const" and draw(st.integers(0, 3)) == 0:
         # on numbers numpy also takes negative and fractional exponents (or rejects them for integers)
-        return {"args": [P(a), draw(st.sampled_from([-1, -2, 0.5, 1.5, 2.0, 1e30, float("inf"), 2.0 ** 63]))], "kw": {}}
+        return {"args": [P(a), draw(st.sampled_from([-1, -2, 0.5, 1.5, 2.0, 1e30, float("inf"), 2.0 ** 63,
+                                                      10 ** 9, 10 ** 5 + 1, 40]))], "kw": {}}
     if draw(st.booleans()):
         return {"args": [P(a), draw(st.integers(0, 3))], "kw": {}}
     shp = gen.broadcast_member(draw, tuple(a["shape"]))
